@@ -29,6 +29,11 @@ FLAG_SETS = {"quick": [0, SQPOLL | SQE128 | CQE32], "thorough": [0, SQPOLL, SQE1
 STALE = "content_overwritten_between_return_and_read"
 
 
+def _md(name):
+    """TLC runs of this check go on in parallel: give each its own metadir"""
+    return os.path.join(core.WORK, "tlc-meta", "c17-%d-%s" % (os.getpid(), name))
+
+
 def invariants_for(side, atomic):
     # the completion side as coded releases the slot before the caller reads it: that one clause (a known
     # finding) is excluded from the exhaustive runs with free interleaving and confirmed by an expected failure
@@ -41,7 +46,7 @@ def mc_and_dump(work, name, ns, nc, h, side, atomic, workers):
                 cq="AllStarts" if side != "sq" else "OneStart", wrapping=R.CODE_NOW["Wrapping"], debug="TRUE",
                 le=R.CODE_NOW["CqEmptyLE"], atomic="TRUE" if atomic else "FALSE", invariants=invariants_for(side, atomic))
     dot = os.path.join(work, "Ring_%s.dot" % name)
-    res = core.run_tlc("Ring_MC.tla", cfg, workers=workers, timeout=1500, dump=dot, xmx="6g")
+    res = core.run_tlc("Ring_MC.tla", cfg, workers=workers, timeout=1500, dump=dot, xmx="6g", metadir=_md(name))
     core.tlc_must_pass(res, "Ring_MC " + name)
     g = R.Graph(dot)
     os.unlink(dot)
@@ -55,7 +60,7 @@ def expect_failure(work, name, inv, what, **kw):
     """anti-vacuity / documentation runs: TLC MUST find a violation of `inv`"""
     cfg = os.path.join(work, "Ring_X_%s.cfg" % name)
     R.write_cfg(cfg, invariants=(inv,), **kw)
-    res = core.run_tlc("Ring_MC.tla", cfg, workers=2, timeout=600)
+    res = core.run_tlc("Ring_MC.tla", cfg, workers=2, timeout=600, metadir=_md("x" + name))
     if inv not in res.invariant_violated:
         raise core.ToolError("expected TLC to violate %s on %s (%s) but it did not:\n%s" % (inv, name, what, res.out[-1500:]))
     m = re.findall(r'why \|-> "(\w*)"', res.out)
@@ -71,7 +76,7 @@ def simulate_paths(work, name, ns, nc, h, atomic, num, depth, seed):
                 invariants=("Emit", "PropertyHolds" if atomic else "PropertyHoldsButStaleRead"), extra_const="  D = %d\n" % depth)
     txt = open(cfg).read().replace("INIT Init", "INIT GInit").replace("NEXT Next", "NEXT GNext")
     open(cfg, "w").write(txt)
-    res = core.run_tlc("RingGen.tla", cfg, workers=1, simulate=num, depth=depth + 2, seed=seed, timeout=900)
+    res = core.run_tlc("RingGen.tla", cfg, workers=1, simulate=num, depth=depth + 2, seed=seed, timeout=900, metadir=_md("g" + name))
     core.tlc_must_pass(res, "RingGen " + name)
     m = re.search(r"The number of states generated: (\d+)", res.out)
     generated = int(m.group(1)) if m else 0
